@@ -96,6 +96,15 @@ theorem wait_returns_first_error {w : Nat} {s : State} (hr : Reachable w s) {e :
   rw [(waited_inv hr e hw).1]
   exact (full_reachable hr).lg.l_err
 
+/-- `Run` stays possible after a failure or `Stop` (until `Wait` returned): the relation
+registers such tasks like any other (`apply s (.run ks)` is total — no panic, no blocking),
+and by `skip_after_error` / `no_deadlock` / `wait_returns_first_error`, which quantify over
+these states too, they are dequeued and skipped, never started, and `Wait` still returns the
+first error. -/
+theorem run_enabled_after_error {s : State} {ks : List KeyReq} (hw : s.waited = none)
+    (hk : keysNodup ks = true) : isEnabled s (.run ks) = true := by
+  simp [isEnabled, hw, hk]
+
 /-- every step offered by `enabled` is a step of the relation -/
 theorem enabled_sound {s : State} {st : Step} (h : st ∈ enabled s) : isEnabled s st = true := by
   unfold enabled at h
@@ -307,6 +316,18 @@ example : ∃ s, Reachable 1 s ∧ s.waited = some none ∧ s.n = 2 ∧
     simp only [Bool.and_eq_true, beq_iff_eq] at h
     exact ⟨s, runTrace_reachable Reachable.init _ _ hs, h.1.1.1, h.1.1.2, h.1.2, h.2⟩
   · cases h
+
+/-- Non-vacuity of the post-error part: task 0 fails; its dependent writer 1 is skipped; a
+reader and then a writer of the same key are queued afterwards, both are skipped; `Wait`
+returns the error of task 0 and only task 0 ever started. -/
+def postErrorTrace : List Step :=
+  [.run [⟨0, false⟩], .run [⟨0, false⟩], .start 0, .finish 0 true [1], .skip 1 [],
+   .run [⟨0, true⟩], .skip 2 [], .run [⟨0, false⟩], .skip 3 [], .wait]
+
+example : (match runTrace (init 2) postErrorTrace with
+    | some s => s.waited == some (some (.task 0)) && s.n == 4 &&
+        s.log == [.skip 3, .skip 2, .skip 1, .fin 0 true, .start 0]
+    | none => false) = true := by decide
 
 /-- Non-vacuity for the finer relation: task 0 writes key 0, task 1 reads it, task 2 (writer of
 keys 0 and 1) is registered while task 0 ends and task 1 runs and ends between its two
